@@ -95,6 +95,7 @@ class Builder:
                  ("efunp", 2), ("mapfp", 3), ("mapstr", 2), ("filterfp", 2), ("sortfp", 2), ("unique", 2), ("mapmap", 2), ("filtermap", 1), ("uniquemap", 2), ("mapstring", 2), ("implodefp", 2),
                  ("message", 2 if main and not self.msg_used and not self.no_cg else 0),
                  ("selfdestruct", 2 if main and not self.in_rep else 0),
+                 ("nested", 4 if main and not self.in_rep else 0),
                  ("catch", 7), ("raise", 3), ("throw", 2), ("safe", 3 if main and not self.in_safe else 0), ("setcg", 2 if main and self.use_setcg and not self.no_cg else 0),
                  ("install", 2 if main and not self.use_setcg else 0), ("installbad", 2 if main and not self.use_setcg else 0), ("load", 2 if main and not self.in_rep else 0),
                  ("clone", 2 if main else 0),
@@ -206,6 +207,25 @@ class Builder:
             self.files[fctx]["fns"].append("void msgbody () { %s (); }" % f)
             stmts.append('message ("c", "hello", find_object ("/c05/user"));')
             ops.append("(tmp 3 (cb other u1 2 2 (call other %s 0 0 (call local %s 0 0 %s))))" % (t, t, " ".join(o)))
+        elif k == "nested":
+            # efun X whose callback runs efun Y; the inner one fails (generated body ending in an error), the outer callback
+            # catches it and the outer efun goes on; its result is compared by value
+            outer = rng.choice(sorted(NEST))
+            inner = outer if rng.chance(1, 2) else rng.choice(["sort", "map", "uniquemap", "unique"])
+            self.in_rep += 1
+            self.plain += 1
+            b, o = self.sub(fctx, depth)
+            self.plain -= 1
+            self.in_rep -= 1
+            i = self.fresh()
+            f = self.fn(fctx, b)
+            st, op, fns, gl, pr = nested_efun(i, outer, inner, '%s (); error ("boom%d\\n");' % (f, i),
+                                             "(call local %s 0 0 %s) (raise boom%d)" % (t, " ".join(o), i))
+            self.files[fctx]["fns"] += fns
+            self.globals += gl
+            self.prep += pr
+            stmts += st
+            ops.append(op)
         elif k == "selfdestruct":
             # an object destructs itself and goes on executing: the frames that are unwound (or returned through) belong to a
             # destructed object
@@ -402,6 +422,49 @@ def pos(text, lit, start=0):
     import re
     m = re.compile(_flex(lit)).search(text, start)
     return m.start() if m else -1
+
+
+# ---- nested efun-callback families: efun X whose callback runs efun Y (X again, or sort_array), the inner one fails, the
+# ---- OUTER callback catches the error and the outer efun goes on; afterwards the outer result is compared by value
+# name: (LPC call with %s = function name, callback parameters, callback return expression, arity, tmp slots, handler slot?,
+#        how the result is rendered, rendered by-value result)
+NEST = {
+    "sort": ("sort_array (({ 3, 1, 2 }), (: %s :))", "int x, int y", "x - y", 2, 2, True,
+             'implode (map (a, (: "" + $1 :)), ",")', "1,2,3"),
+    "map": ("map (({ 1, 2, 3 }), (: %s :))", "int x", "x", 1, 3, False, 'implode (map (a, (: "" + $1 :)), ",")', "1,2,3"),
+    "filter": ("filter (({ 1, 2, 3 }), (: %s :))", "int x", "1", 1, 3, False, 'implode (map (a, (: "" + $1 :)), ",")', "1,2,3"),
+    "mapmap": ("map (([ 1 : 2, 3 : 4, 5 : 6 ]), (: %s :))", "int x, int y", "y", 2, 3, False,
+               '"" + sizeof (a) + "/" + (a[1] + a[3] + a[5])', "3/12"),
+    "filtermap": ("filter (([ 1 : 2, 3 : 4, 5 : 6 ]), (: %s :))", "int x, int y", "1", 2, 3, False,
+                  '"" + sizeof (a) + "/" + (a[1] + a[3] + a[5])', "3/12"),
+    "unique": ("unique_array (({ this_object (), this_object (), this_object () }), (: %s :))", "object x", "1", 1, 2, True,
+               '"" + sizeof (a) + "/" + sizeof (a[0])', "1/3"),
+    "uniquemap": ("unique_mapping (({ 7, 8, 9 }), (: %s :))", "int x", "1", 1, 2, True,
+                  '"" + sizeof (a) + "/" + sizeof (a[1])', "1/3"),
+}
+
+
+def nested_efun(uid, outer, inner, inner_body, inner_ops, later=2):
+    """LPC + ops of `outer` whose FIRST callback runs `inner` inside a catch; the inner callback runs `inner_body` (which
+    fails); the outer efun then makes its remaining callbacks.  Returns (statements, ops, functions, globals, prep)."""
+    ocall, opar, oret, oar, otmp, ohandler, orender, owant = NEST[outer]
+    icall, ipar, iret, iar, itmp, ihandler, _, _ = NEST[inner]
+    fi, fo, flag = "nfi%d" % uid, "nfo%d" % uid, "nflag%d" % uid
+    ity = "mixed" if inner in ("unique",) else "int"
+    fns = ["%s %s (%s) { %s return %s; }" % (ity, fi, ipar, inner_body, iret),
+           "int %s (%s) { mixed e; mixed b; object p0; if (!%s) { %s = 1; p0 = this_player (); e = catch (b = %s); "
+           "VL (\"catch \" + e + (e && this_player () != p0 ? \" cg-changed\" : \"\")); } return %s; }"
+           % (fo, opar, flag, flag, icall % fi, oret)]
+    stmts = ['a = %s; s = %s; VL ("say r=" + s + (s != "%s" ? " result-mismatch" : ""));' % (ocall % fo, orender, owant)]
+    inner_cb = "(cb fplocal t %d %d %s)" % (iar, iar, inner_ops)
+    inner_efun = "(tmp %d %s)" % (itmp, ("(handler %d %s)" % (1000 + uid, inner_cb)) if ihandler else inner_cb)
+    first = "(cb fplocal t %d %d (catch %s) (saycatch))" % (oar, oar, inner_efun)
+    rest = " ".join("(cb fplocal t %d %d)" % (oar, oar) for _ in range(later))
+    body = "%s %s" % (first, rest)
+    # (rendering an array result maps a functional over it: three more callbacks, made by an efun)
+    render = "(tmp 3 (cb functional t 1 1) (cb functional t 1 1) (cb functional t 1 1)) " if "map (a," in orender else ""
+    ops = "(tmp %d %s) %s(say r=%s)" % (otmp, ("(handler %d %s)" % (2000 + uid, body)) if ohandler else body, render, owant)
+    return stmts, ops, fns, ["int %s;" % flag], ["%s = 0;" % flag]
 
 
 def hexs(s):
@@ -1166,6 +1229,14 @@ class C05(Prop):
                                     (CATCHSTMT % lit) if outer else ("a = %s;" % lit),
                                     ("(catch %s) (saycatch)" % o) if outer else o,
                                     fns=['int f1 () { error ("boom1\\n"); return 1; }']))
+        # nested efun callbacks: X in X and sort_array in X, the inner one fails by error() / throw(), caught by the outer callback
+        uid = 0
+        for outer in sorted(NEST):
+            for inner in sorted(set([outer, "sort"])):
+                for how, ib, iops in (("error", 'error ("boom1\\n");', "(raise boom1)"), ("throw", 'throw ("t1");', "(throw t1)")):
+                    uid += 1
+                    st, op, fns, gl, pr = nested_efun(uid, outer, inner, ib, iops)
+                    B.append(fixed_case("b-nested-%s-in-%s-%s" % (inner, outer, how), " ".join(st), op, fns=gl + fns, prep=" ".join(pr)))
         # last_verb (query_verb()): an error in a verb function must not leave it set after the command
         for name, stmt, bops in (("say", 'VL ("say x");', "(say x)"), ("raise", 'error ("boom1\\n");', "(raise boom1)"),
                                  ("throw", 'throw ("t1");', "(throw t1)")):
@@ -1233,6 +1304,7 @@ class C05(Prop):
             ("probe-destruct", [out(["done 1"], pr=probe.replace("d=0", "d=*Only this_object() can be destructed"))], "probe fault differs"),
             ("half-install", [out(["caught nf", "catch nf", "done 1"], pr=probe.replace("in=0", "in=1"))], "half-install"),
             ("catch-value", [out(["caught *boom1", "catch *other", "done 1"])], "catch-value"),
+            ("efun-result", [out(["caught *boom1", "catch *boom1", "say r=3,1,2 result-mismatch", "done 1"])], "efun-result"),
             ("catch-value-zero", [out(["caught *boom1", "catch 0", "done 1"])], "catch-value"),
             ("catch-value-one", [out(["caught *boom1", "catch 1", "done 1"])], "catch-value"),
             ("catch-value-stale", [out(["catch *boom1", "done 1"])], "catch-value"),
